@@ -394,4 +394,464 @@ Proof.
     rewrite Hp0. unfold ring_window, ring_len in *. lia. }
   split; [exact Hcap1|exact Hcm1].
 Qed.
+Lemma cw_unfold : forall A (r : ring A), ring_inv r ->
+  qs_contiguous_window (ring_view r) =
+  Z.min (ring_capacity r - r_len r)
+        (ring_capacity r - pidx (ring_capacity r) (r_read r) (r_len r)).
+Proof.
+  intros A r Hi. rewrite <- cw_eq by auto. unfold ring_contiguous_window, ring_window, ring_len.
+  pose proof Hi as Hi'. unfold ring_inv in Hi'. rewrite get_idx_pidx by (auto; lia). reflexivity.
+Qed.
+
+(* appending the packet record and its payload after make_room *)
+Lemma append_packet : forall b b1 size meta2 payload2 k h pl mfr2 rest,
+  room_ok b b1 size ->
+  ring_inv meta2 ->
+  ring_view meta2 = mkQs (ring_abs (pb_meta b1) ++ [pm_packet k h]) mfr2 (r_read (pb_meta b1)) ->
+  ring_inv payload2 ->
+  ring_view payload2 = mkQs (ring_abs (pb_payload b1) ++ pl) rest (r_read (pb_payload b1)) ->
+  zlen pl = k -> 0 <= k <= qs_contiguous_window (ring_view (pb_payload b1)) ->
+  ring_capacity payload2 = ring_capacity (pb_payload b1) ->
+  pb_inv (mkPbuf meta2 payload2) /\ pb_abs (mkPbuf meta2 payload2) = pb_abs b ++ [(h, pl)].
+Proof.
+  intros b b1 size meta2 payload2 k h pl mfr2 rest Hroom Him2 Hvm2 Hip2 Hvp2 Hpl Hk Hcap2.
+  destruct Hroom as (Him1 & Hip1 & Hlay1 & Htot1 & Hpad1 & Habs1 & _ & _ & _ & _ & _).
+  assert (Hma : ring_abs meta2 = ring_abs (pb_meta b1) ++ [pm_packet k h])
+    by (unfold ring_abs at 1; rewrite Hvm2; reflexivity).
+  assert (Hpa : ring_abs payload2 = ring_abs (pb_payload b1) ++ pl)
+    by (unfold ring_abs at 1; rewrite Hvp2; reflexivity).
+  assert (Hrd2 : r_read payload2 = r_read (pb_payload b1)).
+  { change (r_read payload2) with (q_pos (ring_view payload2)). rewrite Hvp2. reflexivity. }
+  pose proof (len_abs Hip1) as Hlen1. pose proof (len_abs Hip2) as Hlen2.
+  rewrite Hpa, zlen_app, <- Hlen1, Hpl in Hlen2.
+  rewrite cw_unfold in Hk by auto.
+  split.
+  - unfold pb_inv. cbn [pb_meta pb_payload].
+    split; [exact Him2|]. split; [exact Hip2|]. split; [|split].
+    + rewrite Hma, Hcap2, Hrd2. apply pb_layout_app; [exact Hlay1|].
+      rewrite Z.add_0_l, Htot1. cbn [pb_layout pm_packet pm_size pm_header].
+      split; [lia|]. split; [lia|]. split; [discriminate|exact I].
+    + rewrite Hma, pb_total_app, Htot1, Hlen2. cbn [pb_total pm_packet pm_size]. lia.
+    + rewrite Hma. apply Hpad1. discriminate.
+  - unfold pb_abs in *. cbn [pb_meta pb_payload]. rewrite Hma, Hpa.
+    erewrite pb_split_app; eauto; [|lia]. rewrite Habs1. f_equal.
+    cbn [pb_split pm_packet pm_size pm_header]. f_equal. f_equal.
+    rewrite <- Hpl, to_nat_zlen. apply firstn_all.
+Qed.
+
+Theorem pb_enqueue_spec : forall b size h w, pb_inv b -> 0 <= size ->
+  exists b' res, pb_enqueue b size h w = Ok (b', res) /\
+    match res with
+    | None => b' = b
+    | Some old => zlen old = size /\ pb_inv b' /\ pb_abs b' = pb_abs b ++ [(h, overlay w old)]
+    end.
+Proof.
+  intros b size h w Hinv Hsz.
+  destruct (pb_make_room_spec Hinv Hsz) as (b1 & refused & Hmr & Hrt & Hrf).
+  unfold pb_enqueue. rewrite Hmr. cbn [obind].
+  destruct refused.
+  { exists b1, None. split; [reflexivity|]. apply Hrt; reflexivity. }
+  specialize (Hrf eq_refl). pose proof Hrf as Hroom.
+  destruct Hrf as (Him1 & Hip1 & _ & _ & _ & _ & Hnf & Hreset & Hcw & _ & _).
+  destruct (fwd_enqueue_one_write Him1 Hnf) as (meta2 & slot & oldm & mfr' & He1 & Hmfr & Hw1).
+  rewrite He1. specialize (Hw1 (pm_packet size h)). cbv zeta in Hw1.
+  destruct Hw1 as (Him2 & Hvm2 & _).
+  destruct (@fwd_enqueue_many Z (pb_payload b1) size w Hip1 Hsz) as (payload2 & Hep & Hip2 & Hvp2).
+  cbv zeta in Hep, Hvp2. rewrite Hreset in Hep, Hvp2. rewrite Z.min_l in Hep, Hvp2 by lia.
+  rewrite Hep. cbn [obind].
+  set (old := firstn (Z.to_nat size) (q_fr (ring_view (pb_payload b1)))) in *.
+  pose proof (cw_range (view_wf Hip1)) as Hcwr. unfold qs_window in Hcwr.
+  assert (Hzold : zlen old = size) by (apply zlen_firstn; lia).
+  rewrite Hzold. rewrite Z.eqb_refl. cbn [negb].
+  exists (mkPbuf (ring_ref_write meta2 slot (pm_packet size h)) payload2), (Some old).
+  split; [reflexivity|]. split; [exact Hzold|].
+  eapply append_packet; eauto; try (rewrite zlen_overlay; exact Hzold); try lia.
+  rewrite (cap_eq Hip2), (cap_eq Hip1), Hvp2. unfold qs_cap. cbn [q_q q_fr].
+    rewrite zlen_app, zlen_overlay, Hzold, zlen_skipn by lia. fold (ring_abs (pb_payload b1)). lia.
+Qed.
+Theorem pb_enqueue_with_infallible_spec : forall b max h (f : list Z -> list Z * Z),
+  pb_inv b -> 0 <= max -> (forall buf, 0 <= snd (f buf)) ->
+  (exists b' res, pb_enqueue_with_infallible b max h f = Ok (b', res) /\
+     match res with
+     | None => b' = b
+     | Some (k, seen) =>
+         zlen seen = max /\ k = snd (f seen) /\ pb_inv b' /\
+         exists pl, zlen pl = k /\ pb_abs b' = pb_abs b ++ [(h, pl)] /\
+           (k <= max -> pl = firstn (Z.to_nat k) (overlay (fst (f seen)) seen))
+     end) \/
+  (pb_enqueue_with_infallible b max h f = Panic /\
+   exists seen, zlen seen = max /\ max < snd (f seen)).
+Proof.
+  intros b max h f Hinv Hmax Hf.
+  destruct (pb_make_room_spec Hinv Hmax) as (b1 & refused & Hmr & Hrt & Hrf).
+  unfold pb_enqueue_with_infallible. rewrite Hmr. cbn [obind].
+  destruct refused.
+  { left. exists b1, None. split; [reflexivity|]. apply Hrt; reflexivity. }
+  specialize (Hrf eq_refl). pose proof Hrf as Hroom.
+  destruct Hrf as (Him1 & Hip1 & _ & _ & _ & _ & Hnf & Hreset & Hcw & _ & _).
+  destruct (fwd_enqueue_one_write Him1 Hnf) as (meta2 & slot & oldm & mfr' & He1 & Hmfr & Hw1).
+  rewrite He1.
+  set (g := fun data : list Z =>
+              if negb (in_range data 0 max) then Panic
+              else let buf := slice data 0 max in
+                   let '(new, k) := f buf in
+                   Ok (overlay new buf ++ skipn (Z.to_nat max) data, k, buf)).
+  assert (Hg : cb_nonneg3 g).
+  { intros data new k res Hgd. unfold g in Hgd. destruct (negb _); [discriminate|].
+    cbv zeta in Hgd. pose proof (Hf (slice data 0 max)) as H0.
+    destruct (f (slice data 0 max)) as [new' k']. cbn [snd] in H0. inversion Hgd; subst. exact H0. }
+  pose proof (sim_enqueue_many_with Hg Hip1) as S. fold g.
+  unfold qs_enqueue_many_with in S. rewrite Hreset in S.
+  pose proof (cw_range (view_wf Hip1)) as Hcwr. unfold qs_window in Hcwr.
+  set (m := qs_contiguous_window (ring_view (pb_payload b1))) in *.
+  set (pfr := q_fr (ring_view (pb_payload b1))) in *.
+  set (old := firstn (Z.to_nat m) pfr) in *.
+  assert (Hzold : zlen old = m) by (apply zlen_firstn; lia).
+  assert (Hgold : g old = let buf := firstn (Z.to_nat max) pfr in
+                          let '(new, k) := f buf in
+                          Ok (overlay new buf ++ skipn (Z.to_nat max) old, k, buf)).
+  { unfold g. rewrite in_range_true by lia. cbn [negb]. cbv zeta.
+    rewrite slice_0. unfold old. rewrite firstn_firstn_z by lia. reflexivity. }
+  rewrite Hgold in S. cbv zeta in S.
+  set (buf := firstn (Z.to_nat max) pfr) in *.
+  assert (Hzbuf : zlen buf = max) by (apply zlen_firstn; lia).
+  pose proof (Hf buf) as Hk0.
+  destruct (f buf) as [new k] eqn:Ef. cbn [snd] in Hk0. cbn [obind] in S.
+  destruct (Z.ltb_spec m k) as [Hmk|Hmk].
+  { right. destruct (ring_enqueue_many_with (pb_payload b1) g) as [[? ?]| |]; cbn [sim] in S;
+      try (destruct S as (_ & S)); try discriminate.
+    split; [reflexivity|]. exists buf. rewrite Ef. cbn [snd]. split; [exact Hzbuf|lia]. }
+  left. apply sim_ok in S. destruct S as (payload2 & Hep & Hip2 & Hvp2).
+  rewrite Hep. cbn [obind].
+  specialize (Hw1 (pm_packet k h)). cbv zeta in Hw1. destruct Hw1 as (Him2 & Hvm2 & _).
+  exists (mkPbuf (ring_ref_write meta2 slot (pm_packet k h)) payload2), (Some (k, buf)).
+  split; [reflexivity|]. split; [exact Hzbuf|]. split; [rewrite Ef; reflexivity|].
+  set (nw0 := overlay new buf ++ skipn (Z.to_nat max) old) in *.
+  assert (Hznw0 : zlen nw0 = m).
+  { unfold nw0. rewrite zlen_app, zlen_overlay, Hzbuf, zlen_skipn by lia. lia. }
+  assert (Hov : overlay nw0 old = nw0) by (apply overlay_same; unfold zlen in *; lia).
+  rewrite Hov in Hvp2.
+  set (pl := firstn (Z.to_nat k) nw0) in *.
+  assert (Hzpl : zlen pl = k) by (apply zlen_firstn; lia).
+  assert (Hres : pb_inv (mkPbuf (ring_ref_write meta2 slot (pm_packet k h)) payload2) /\
+                 pb_abs (mkPbuf (ring_ref_write meta2 slot (pm_packet k h)) payload2) = pb_abs b ++ [(h, pl)]).
+  { eapply append_packet; eauto; try lia.
+    rewrite (cap_eq Hip2), (cap_eq Hip1), Hvp2. unfold qs_cap. cbn [q_q q_fr].
+    fold pfr. rewrite !zlen_app, Hzpl, !zlen_skipn by lia. rewrite Hznw0. lia. }
+  destruct Hres as (Hinv' & Habs'). split; [exact Hinv'|].
+  exists pl. split; [exact Hzpl|]. split; [exact Habs'|].
+  intro Hle. rewrite Ef. cbn [fst]. unfold pl, nw0.
+  rewrite firstn_app. replace (Z.to_nat k - length (overlay new buf))%nat with 0%nat.
+  - cbn [firstn]. apply app_nil_r.
+  - rewrite overlay_length. unfold zlen in *. lia.
+Qed.
+Lemma sim_err : forall A R (x : outcome (ring A * R)) e, sim x (Err e) -> x = Err e.
+Proof.
+  intros A R x e Hs. destruct x as [[r' o']| |]; cbn [sim] in Hs.
+  - destruct Hs as (_ & Hs). discriminate.
+  - inversion Hs. reflexivity.
+  - discriminate.
+Qed.
+
+(* replacing both rings by rings with the same abstract content and geometry *)
+Lemma same_views : forall b meta' payload', pb_inv b ->
+  ring_inv meta' -> ring_abs meta' = ring_abs (pb_meta b) ->
+  ring_inv payload' -> ring_abs payload' = ring_abs (pb_payload b) ->
+  r_read payload' = r_read (pb_payload b) ->
+  ring_capacity payload' = ring_capacity (pb_payload b) ->
+  pb_inv (mkPbuf meta' payload') /\ pb_abs (mkPbuf meta' payload') = pb_abs b.
+Proof.
+  intros b meta' payload' (Him & Hip & Hlay & Htot & Hpad) Him' Hma Hip' Hpa Hrd Hcap.
+  split.
+  - unfold pb_inv. cbn [pb_meta pb_payload]. rewrite Hma, Hcap, Hrd.
+    split; [exact Him'|]. split; [exact Hip'|]. split; [exact Hlay|]. split; [|exact Hpad].
+    rewrite (len_abs Hip'), Hpa, <- (len_abs Hip). exact Htot.
+  - unfold pb_abs. cbn [pb_meta pb_payload]. rewrite Hma, Hpa. reflexivity.
+Qed.
+
+(* the oldest record fits before the end of the storage and inside the queued bytes *)
+Lemma head_fits : forall b m ms', pb_inv b -> ring_abs (pb_meta b) = m :: ms' ->
+  0 <= pm_size m /\ pm_size m <= r_len (pb_payload b) /\
+  r_read (pb_payload b) + pm_size m <= ring_capacity (pb_payload b) /\
+  (pm_header m = None -> r_read (pb_payload b) + pm_size m = ring_capacity (pb_payload b)).
+Proof.
+  intros b m ms' (Him & Hip & Hlay & Htot & Hpad) Hms. rewrite Hms in *.
+  cbn [pb_layout pb_total] in *. destruct Hlay as (H0 & H1 & H2 & Hr).
+  pose proof (pb_layout_sizes _ _ _ _ Hr) as Hs.
+  pose proof Hip as Hipu. unfold ring_inv in Hipu.
+  rewrite pidx_0_wf in H1, H2 by lia.
+  split; [lia|]. split; [lia|]. split; [lia|]. intro Hn. apply H2; auto.
+Qed.
+
+Lemma qs_dequeue_n_cap : forall A (s : qs A) n, 0 <= n <= qs_len s ->
+  qs_cap (qs_dequeue_n s n) = qs_cap s.
+Proof.
+  intros A s n Hn. unfold qs_cap, qs_dequeue_n, qs_len in *. cbn [q_q q_fr].
+  rewrite zlen_app, zlen_firstn, zlen_skipn by lia. lia.
+Qed.
+
+(* removing the oldest record together with its bytes *)
+Lemma drop_head : forall b meta2 payload2 m ms', pb_inv b ->
+  ring_abs (pb_meta b) = m :: ms' ->
+  ring_inv meta2 -> ring_abs meta2 = ms' ->
+  ring_inv payload2 ->
+  ring_view payload2 = qs_dequeue_n (ring_view (pb_payload b)) (pm_size m) ->
+  pb_inv (mkPbuf meta2 payload2) /\
+  pb_abs (mkPbuf meta2 payload2) =
+    pb_split ms' (skipn (Z.to_nat (pm_size m)) (ring_abs (pb_payload b))).
+Proof.
+  intros b meta2 payload2 m ms' Hinv Hms Him2 Hma Hip2 Hvp2.
+  destruct (head_fits Hinv Hms) as (Hs0 & Hsl & Hsc & _).
+  destruct Hinv as (Him & Hip & Hlay & Htot & Hpad). rewrite Hms in *.
+  cbn [pb_layout pb_total pb_pad_ok] in *. destruct Hlay as (_ & _ & _ & Hr). destruct Hpad as (_ & Hpad').
+  pose proof (len_abs Hip) as Hlen. pose proof Hip as Hipu. unfold ring_inv in Hipu.
+  assert (Hpa : ring_abs payload2 = skipn (Z.to_nat (pm_size m)) (ring_abs (pb_payload b))).
+  { unfold ring_abs at 1. rewrite Hvp2. reflexivity. }
+  assert (Hrd : r_read payload2 = pidx (ring_capacity (pb_payload b)) (r_read (pb_payload b)) (pm_size m)).
+  { change (r_read payload2) with (q_pos (ring_view payload2)). rewrite Hvp2.
+    cbn [qs_dequeue_n q_pos]. rewrite (cap_eq Hip). reflexivity. }
+  assert (Hcap : ring_capacity payload2 = ring_capacity (pb_payload b)).
+  { rewrite (cap_eq Hip2), Hvp2, qs_dequeue_n_cap, <- (cap_eq Hip); auto.
+    unfold qs_len. fold (ring_abs (pb_payload b)). lia. }
+  split.
+  - unfold pb_inv. cbn [pb_meta pb_payload]. rewrite Hma, Hcap, Hrd.
+    split; [exact Him2|]. split; [exact Hip2|]. split; [|split; [|exact Hpad']].
+    + pose proof (pb_layout_sizes _ _ _ _ Hr). apply pb_layout_shift; try lia.
+      rewrite Z.add_0_r. rewrite Z.add_0_l in Hr. exact Hr.
+    + rewrite (len_abs Hip2), Hpa, zlen_skipn by lia. lia.
+  - unfold pb_abs. cbn [pb_meta pb_payload]. rewrite Hma, Hpa. reflexivity.
+Qed.
+
+Theorem pb_dequeue_padding_spec : forall b, pb_inv b ->
+  exists b1, pb_dequeue_padding b = Ok b1 /\ pb_inv b1 /\ pb_abs b1 = pb_abs b /\
+    match ring_abs (pb_meta b1) with m :: _ => pm_header m <> None | [] => True end.
+Proof.
+  intros b Hinv. pose proof Hinv as (Him & Hip & Hlay & Htot & Hpad).
+  unfold pb_dequeue_padding.
+  set (F := fun (_ : Z) (metadata : pmeta) =>
+              if pm_is_padding metadata
+              then do x <- ring_dequeue_many (pb_payload b) (pm_size metadata);
+                   let '(payload1, _) := x in Ok (true, payload1)
+              else Ok (false, pb_payload b)).
+  pose proof (sim_dequeue_one_with F Him) as S. unfold qs_dequeue_one_with in S.
+  fold (ring_abs (pb_meta b)) in S.
+  destruct (ring_abs (pb_meta b)) as [|m ms'] eqn:Hms.
+  - apply sim_err in S. rewrite S. exists b. rewrite Hms. auto.
+  - destruct (head_fits Hinv Hms) as (Hs0 & Hsl & Hsc & Hpe).
+    destruct (pm_header m) as [h|] eqn:Ehd.
+    + (* a packet is at the head: nothing happens *)
+      assert (HF : forall p, F p m = Ok (false, pb_payload b))
+        by (intro; unfold F, pm_is_padding; rewrite Ehd; reflexivity).
+      rewrite HF in S. cbn [obind] in S. apply sim_ok in S. destruct S as (meta1 & He & Him1 & Hvm1).
+      rewrite He. exists (mkPbuf meta1 (pb_payload b)).
+      assert (Hma : ring_abs meta1 = ring_abs (pb_meta b)).
+      { unfold ring_abs. rewrite Hvm1. fold (ring_abs (pb_meta b)). rewrite Hms. destruct (ring_view (pb_meta b)); reflexivity. }
+      destruct (@same_views b meta1 (pb_payload b) Hinv Him1 Hma Hip eq_refl eq_refl eq_refl) as (Hi' & Ha').
+      split; [reflexivity|]. split; [exact Hi'|]. split; [exact Ha'|].
+      cbn [pb_meta]. rewrite Hma, Hms. rewrite Ehd. discriminate.
+    + (* a padding record: drop it and its bytes *)
+      specialize (Hpe eq_refl).
+      destruct (@fwd_dequeue_many Z (pb_payload b) (pm_size m) Hip Hs0) as (payload1 & Hdq & Hip1 & Hvp1).
+      cbv zeta in Hdq, Hvp1.
+      assert (Hn : Z.min (pm_size m) (Z.min (qs_len (ring_view (pb_payload b)))
+                    (qs_cap (ring_view (pb_payload b)) - q_pos (ring_view (pb_payload b)))) = pm_size m).
+      { unfold qs_len. fold (ring_abs (pb_payload b)). rewrite <- (len_abs Hip), <- (cap_eq Hip).
+        cbn [ring_view q_pos]. lia. }
+      rewrite Hn in Hdq, Hvp1.
+      assert (HF : forall p, F p m = Ok (true, payload1))
+        by (intro; unfold F, pm_is_padding; rewrite Ehd, Hdq; reflexivity).
+      rewrite HF in S. cbn [obind] in S.
+      apply sim_ok in S. destruct S as (meta1 & He & Him1 & Hvm1). rewrite He.
+      exists (mkPbuf meta1 payload1).
+      assert (Hma : ring_abs meta1 = ms') by (unfold ring_abs; rewrite Hvm1; reflexivity).
+      destruct (@drop_head b meta1 payload1 m ms' Hinv Hms Him1 Hma Hip1 Hvp1) as (Hi' & Ha').
+      split; [reflexivity|]. split; [exact Hi'|]. split.
+      * rewrite Ha'. unfold pb_abs. rewrite Hms. cbn [pb_split]. rewrite Ehd. reflexivity.
+      * cbn [pb_meta]. rewrite Hma. cbn [pb_pad_ok] in Hpad.
+        destruct Hpad as (Hnext & _). specialize (Hnext Ehd). destruct ms'; auto.
+Qed.
+Lemma head_min : forall b m ms', pb_inv b -> ring_abs (pb_meta b) = m :: ms' ->
+  Z.min (pm_size m) (Z.min (qs_len (ring_view (pb_payload b)))
+     (qs_cap (ring_view (pb_payload b)) - q_pos (ring_view (pb_payload b)))) = pm_size m.
+Proof.
+  intros b m ms' Hinv Hms. destruct (head_fits Hinv Hms) as (Hs0 & Hsl & Hsc & _).
+  destruct Hinv as (_ & Hip & _).
+  unfold qs_len. fold (ring_abs (pb_payload b)). rewrite <- (len_abs Hip), <- (cap_eq Hip).
+  cbn [ring_view q_pos]. lia.
+Qed.
+
+Theorem pb_dequeue_spec : forall b, pb_inv b ->
+  exists b' res, pb_dequeue b = Ok (b', res) /\ pb_inv b' /\
+    match res with
+    | None => pb_abs b = [] /\ pb_abs b' = []
+    | Some (h, p) => pb_abs b = (h, p) :: pb_abs b'
+    end.
+Proof.
+  intros b Hinv0. destruct (pb_dequeue_padding_spec Hinv0) as (b1 & Hdp & Hinv & Habs1 & Hhead).
+  unfold pb_dequeue. rewrite Hdp. cbn [obind]. rewrite <- Habs1. clear Hdp Habs1 Hinv0 b.
+  rename b1 into b. pose proof Hinv as (Him & Hip & Hlay & Htot & Hpad).
+  unfold ring_dequeue_one.
+  pose proof (sim_dequeue_one_with (fun idx x => Ok (true, (idx, x))) Him) as S.
+  unfold qs_dequeue_one_with in S. fold (ring_abs (pb_meta b)) in S.
+  destruct (ring_abs (pb_meta b)) as [|m ms'] eqn:Hms.
+  - apply sim_err in S. rewrite S. exists b, None. split; [reflexivity|]. split; [exact Hinv|].
+    unfold pb_abs. rewrite Hms. auto.
+  - cbn [obind] in S. apply sim_ok in S. destruct S as (meta1 & He & Him1 & Hvm1). rewrite He.
+    destruct (head_fits Hinv Hms) as (Hs0 & Hsl & Hsc & _).
+    destruct (@fwd_dequeue_many Z (pb_payload b) (pm_size m) Hip Hs0) as (payload1 & Hdq & Hip1 & Hvp1).
+    cbv zeta in Hdq, Hvp1. rewrite (head_min Hinv Hms) in Hdq, Hvp1. rewrite Hdq. cbn [obind].
+    fold (ring_abs (pb_payload b)) in *.
+    rewrite zlen_firstn by (rewrite <- (len_abs Hip); lia). rewrite Z.eqb_refl. cbn [negb].
+    destruct (pm_header m) as [h|] eqn:Ehd; [|contradiction].
+    assert (Hma : ring_abs meta1 = ms') by (unfold ring_abs; rewrite Hvm1; reflexivity).
+    destruct (@drop_head b meta1 payload1 m ms' Hinv Hms Him1 Hma Hip1 Hvp1) as (Hi' & Ha').
+    exists (mkPbuf meta1 payload1), (Some (h, firstn (Z.to_nat (pm_size m)) (ring_abs (pb_payload b)))).
+    split; [reflexivity|]. split; [exact Hi'|].
+    rewrite Ha'. unfold pb_abs. rewrite Hms. cbn [pb_split]. rewrite Ehd. reflexivity.
+Qed.
+
+Theorem pb_dequeue_with_spec : forall b (f : HT -> list Z -> bool), pb_inv b ->
+  exists b' res, pb_dequeue_with b f = Ok (b', res) /\ pb_inv b' /\
+    match res with
+    | None => pb_abs b = [] /\ pb_abs b' = []
+    | Some (h, p, acc) =>
+        acc = f h p /\
+        exists rest, pb_abs b = (h, p) :: rest /\
+                     pb_abs b' = if acc then rest else (h, p) :: rest
+    end.
+Proof.
+  intros b f Hinv0. destruct (pb_dequeue_padding_spec Hinv0) as (b1 & Hdp & Hinv & Habs1 & Hhead).
+  unfold pb_dequeue_with. rewrite Hdp. cbn [obind]. rewrite <- Habs1. clear Hdp Habs1 Hinv0 b.
+  rename b1 into b. pose proof Hinv as (Him & Hip & Hlay & Htot & Hpad).
+  set (G := fun (metadata : pmeta) (payload_buf : list Z) =>
+              if zlen payload_buf <? pm_size metadata then Panic
+              else match pm_header metadata with
+                   | None => Panic
+                   | Some h =>
+                       let p := slice payload_buf 0 (pm_size metadata) in
+                       if f h p then Ok (pm_size metadata, (h, p, true)) else Ok (0, (h, p, false))
+                   end).
+  set (F := fun (_ : Z) (metadata : pmeta) =>
+              do x <- ring_dequeue_many_with (pb_payload b) (G metadata);
+              let '(payload1, (_, res)) := x in Ok (snd res, (payload1, res))).
+  change (exists b' res,
+    match ring_dequeue_one_with (pb_meta b) F with
+    | Ok (meta1, (payload1, res)) => Ok (mkPbuf meta1 payload1, Some res)
+    | Err _ => Ok (b, None)
+    | Panic => Panic
+    end = Ok (b', res) /\ pb_inv b' /\
+    match res with
+    | None => pb_abs b = [] /\ pb_abs b' = []
+    | Some (h, p, acc) =>
+        acc = f h p /\
+        exists rest, pb_abs b = (h, p) :: rest /\
+                     pb_abs b' = if acc then rest else (h, p) :: rest
+    end).
+  pose proof (sim_dequeue_one_with F Him) as S. unfold qs_dequeue_one_with in S.
+  fold (ring_abs (pb_meta b)) in S.
+  destruct (ring_abs (pb_meta b)) as [|m ms'] eqn:Hms.
+  - apply sim_err in S. rewrite S. exists b, None. split; [reflexivity|]. split; [exact Hinv|].
+    unfold pb_abs. rewrite Hms. auto.
+  - destruct (head_fits Hinv Hms) as (Hs0 & Hsl & Hsc & _).
+    destruct (pm_header m) as [h|] eqn:Ehd; [|contradiction].
+    (* the inner dequeue_many_with *)
+    assert (HG : cb_nonneg2 (G m)).
+    { intros buf k res HGk. unfold G in HGk. destruct (_ <? _); [discriminate|]. rewrite Ehd in HGk.
+      cbv zeta in HGk. destruct (f h _); inversion HGk; lia. }
+    pose proof (sim_dequeue_many_with HG Hip) as S2. unfold qs_dequeue_many_with in S2.
+    fold (ring_abs (pb_payload b)) in S2.
+    set (bytes := ring_abs (pb_payload b)) in *.
+    pose proof (len_abs Hip) as Hlen. fold bytes in Hlen.
+    pose proof Hip as Hipu. unfold ring_inv in Hipu.
+    set (m' := Z.min (qs_len (ring_view (pb_payload b)))
+                     (qs_cap (ring_view (pb_payload b)) - q_pos (ring_view (pb_payload b)))) in *.
+    assert (Hm' : pm_size m <= m' <= zlen bytes).
+    { unfold m', qs_len. change (q_q (ring_view (pb_payload b))) with bytes.
+      rewrite <- (cap_eq Hip). cbn [ring_view q_pos]. lia. }
+    set (p := firstn (Z.to_nat (pm_size m)) bytes).
+    assert (HGv : G m (firstn (Z.to_nat m') bytes) =
+                  if f h p then Ok (pm_size m, (h, p, true)) else Ok (0, (h, p, false))).
+    { unfold G. rewrite zlen_firstn by lia. destruct (Z.ltb_spec m' (pm_size m)); [lia|].
+      rewrite Ehd. cbv zeta. rewrite slice_0, firstn_firstn_z by lia. reflexivity. }
+    rewrite HGv in S2.
+    set (acc := f h p) in *.
+    set (k := if acc then pm_size m else 0).
+    assert (S2' : sim (ring_dequeue_many_with (pb_payload b) (G m))
+                      (Ok (qs_dequeue_n (ring_view (pb_payload b)) k, (k, (h, p, acc))))).
+    { unfold k. destruct acc; cbn [obind] in S2.
+      - destruct (Z.ltb_spec m' (pm_size m)); [lia|]. exact S2.
+      - destruct (Z.ltb_spec m' 0); [lia|]. exact S2. }
+    clear S2. apply sim_ok in S2'. destruct S2' as (payload1 & Hdq & Hip1 & Hvp1).
+    assert (HF : forall pos, F pos m = Ok (acc, (payload1, (h, p, acc)))).
+    { intro. unfold F. rewrite Hdq. reflexivity. }
+    rewrite HF in S. cbn [obind] in S. apply sim_ok in S. destruct S as (meta1 & He & Him1 & Hvm1).
+    rewrite He.
+    exists (mkPbuf meta1 payload1), (Some (h, p, acc)). split; [reflexivity|].
+    assert (Habs : pb_abs b = (h, p) :: pb_split ms' (skipn (Z.to_nat (pm_size m)) bytes)).
+    { unfold pb_abs. rewrite Hms. cbn [pb_split]. rewrite Ehd. reflexivity. }
+    destruct acc eqn:Eacc.
+    + (* accepted: the record and its bytes are removed *)
+      assert (Hma : ring_abs meta1 = ms') by (unfold ring_abs; rewrite Hvm1; reflexivity).
+      destruct (@drop_head b meta1 payload1 m ms' Hinv Hms Him1 Hma Hip1 Hvp1) as (Hi' & Ha').
+      split; [exact Hi'|]. split; [reflexivity|].
+      exists (pb_split ms' (skipn (Z.to_nat (pm_size m)) bytes)). split; [exact Habs|exact Ha'].
+    + (* declined: nothing changes *)
+      assert (Hma : ring_abs meta1 = ring_abs (pb_meta b)).
+      { unfold ring_abs at 1. rewrite Hvm1. fold (ring_abs (pb_meta b)). exact (eq_sym Hms). }
+      assert (Hpa : ring_abs payload1 = ring_abs (pb_payload b)).
+      { unfold ring_abs at 1. rewrite Hvp1. reflexivity. }
+      assert (Hrd : r_read payload1 = r_read (pb_payload b)).
+      { change (r_read payload1) with (q_pos (ring_view payload1)). rewrite Hvp1.
+        cbn [qs_dequeue_n q_pos]. change (qs_idx (ring_view (pb_payload b)) 0)
+          with (pidx (qs_cap (ring_view (pb_payload b))) (r_read (pb_payload b)) 0).
+        rewrite <- (cap_eq Hip). apply pidx_0_wf. lia. }
+      assert (Hcap : ring_capacity payload1 = ring_capacity (pb_payload b)).
+      { rewrite (cap_eq Hip1), Hvp1, qs_dequeue_n_cap, <- (cap_eq Hip); auto.
+        unfold qs_len. change (q_q (ring_view (pb_payload b))) with bytes. lia. }
+      destruct (@same_views b meta1 payload1 Hinv Him1 Hma Hip1 Hpa Hrd Hcap) as (Hi' & Ha').
+      split; [exact Hi'|]. split; [reflexivity|].
+      exists (pb_split ms' (skipn (Z.to_nat (pm_size m)) bytes)). split; [exact Habs|].
+      rewrite Ha'. exact Habs.
+Qed.
+
+Theorem pb_peek_spec : forall b, pb_inv b ->
+  exists b' res, pb_peek b = Ok (b', res) /\ pb_inv b' /\ pb_abs b' = pb_abs b /\
+    match res with
+    | None => pb_abs b = []
+    | Some (h, p) => exists rest, pb_abs b = (h, p) :: rest
+    end.
+Proof.
+  intros b Hinv0. destruct (pb_dequeue_padding_spec Hinv0) as (b1 & Hdp & Hinv & Habs1 & Hhead).
+  unfold pb_peek. rewrite Hdp. cbn [obind]. rewrite <- Habs1. clear Hdp Habs1 Hinv0 b.
+  rename b1 into b. pose proof Hinv as (Him & Hip & Hlay & Htot & Hpad).
+  rewrite sim_get_allocated by (auto; lia). unfold qs_get_allocated.
+  fold (ring_abs (pb_meta b)). unfold qs_len. fold (ring_abs (pb_meta b)).
+  pose proof (zlen_nonneg (ring_abs (pb_meta b))).
+  destruct (Z.ltb_spec (zlen (ring_abs (pb_meta b))) 0); [lia|]. cbn [obind].
+  pose proof Him as Himu. unfold ring_inv in Himu. pose proof (len_abs Him) as Hmlen.
+  change (qs_idx (ring_view (pb_meta b)) 0)
+    with (pidx (qs_cap (ring_view (pb_meta b))) (r_read (pb_meta b)) 0).
+  rewrite <- (cap_eq Him), pidx_0_wf by lia.
+  destruct (ring_abs (pb_meta b)) as [|m ms'] eqn:Hms.
+  - rewrite slice_nil. exists b, None. split; [reflexivity|]. split; [exact Hinv|]. split; [reflexivity|].
+    unfold pb_abs. rewrite Hms. reflexivity.
+  - rewrite zlen_cons in *. pose proof (zlen_nonneg ms').
+    replace (Z.min (Z.min 1 (1 + zlen ms' - 0)) (ring_capacity (pb_meta b) - r_read (pb_meta b))) with 1 by lia.
+    change (slice (m :: ms') 0 1) with [m].
+    destruct (pm_header m) as [h|] eqn:Ehd; [|contradiction].
+    destruct (head_fits Hinv Hms) as (Hs0 & Hsl & Hsc & _).
+    rewrite sim_get_allocated by (auto; lia). unfold qs_get_allocated, qs_len.
+    fold (ring_abs (pb_payload b)). pose proof (len_abs Hip) as Hlen.
+    destruct (Z.ltb_spec (zlen (ring_abs (pb_payload b))) 0); [pose proof (zlen_nonneg (ring_abs (pb_payload b))); lia|].
+    cbn [obind]. pose proof Hip as Hipu. unfold ring_inv in Hipu.
+    change (qs_idx (ring_view (pb_payload b)) 0)
+      with (pidx (qs_cap (ring_view (pb_payload b))) (r_read (pb_payload b)) 0).
+    rewrite <- (cap_eq Hip), pidx_0_wf by lia.
+    replace (Z.min (Z.min (pm_size m) (zlen (ring_abs (pb_payload b)) - 0))
+               (ring_capacity (pb_payload b) - r_read (pb_payload b))) with (pm_size m) by lia.
+    exists b, (Some (h, slice (ring_abs (pb_payload b)) 0 (pm_size m))).
+    split; [reflexivity|]. split; [exact Hinv|]. split; [reflexivity|].
+    exists (pb_split ms' (skipn (Z.to_nat (pm_size m)) (ring_abs (pb_payload b)))).
+    unfold pb_abs. rewrite Hms. cbn [pb_split]. rewrite Ehd. reflexivity.
+Qed.
 End PB.
